@@ -121,8 +121,10 @@ def grouping(chk, rng):
         nd = len(c['shape'])
         for axis in (c['axis'], c['axis'] - nd):          # non-negative and negative spelling of the same axis
             chk.count(('grp', ci, axis), nontrivial=c['k'] > 1)
+            # the same values in another memory layout (Fortran order, as a transposed view gives it): a model is a function of the values
+            lay = a if (ci + axis) % 3 else np.asfortranarray(a)
             try:
-                got = np.asarray(hw(a, axis=axis))
+                got = np.asarray(hw(lay, axis=axis))
             except Exception as ex:
                 chk.violation('HammingWeight(nb_words):sum over groups of consecutive words along the chosen axis (axis spelling refused)',
                               {'property': 'C15', 'part': 'group', 'case': c, 'axis_passed': axis, 'error': repr(ex)[:200]}, f'HammingWeight(nb_words={c["k"]}) axis={axis} on shape {c["shape"]}: {ex!r}'[:200])
@@ -131,7 +133,7 @@ def grouping(chk, rng):
             if got.shape != want.shape or not np.array_equal(got, want):
                 neg = 'negative axis' if axis < 0 else 'axis'
                 chk.violation(f'HammingWeight(nb_words):sum over groups of consecutive words along the chosen axis ({neg})',
-                              {'property': 'C15', 'part': 'group', 'case': c, 'axis_passed': axis, 'got_shape': list(got.shape), 'expected_shape': list(want.shape), 'got': got.tolist(), 'expected': want.tolist()},
+                              {'property': 'C15', 'part': 'group', 'case': c, 'axis_passed': axis, 'fortran_order': lay is not a, 'got_shape': list(got.shape), 'expected_shape': list(want.shape), 'got': got.tolist(), 'expected': want.tolist()},
                               f'HammingWeight(nb_words={c["k"]}) axis={axis} on shape {c["shape"]}: shape {got.shape} vs {want.shape}')
             scribble(got)          # the result is the caller's; the same model object serves the next call
         if [int(x) for x in a.reshape(-1)] != c['flat']:
@@ -221,6 +223,8 @@ def replay(chk, path):
         c = rp['case']
         dt = 'uint8' if max(c['flat']) < 256 else 'uint16'
         a = np.array(c['flat'], dtype=dt).reshape(c['shape'])
+        if rp.get('fortran_order'):
+            a = np.asfortranarray(a)
         try:
             got = np.asarray(scared.HammingWeight(nb_words=c['k'], expected_dtype=dt)(a, axis=rp['axis_passed']))
         except Exception as ex:
